@@ -186,6 +186,10 @@ OnFire(m, e) ==
              \cup A(\E c \in Kids(m) : m.ch[c].lwid = w /\ m.ch[c].firedL, "C01.repeated_wake")
   IN Arm([m EXCEPT !.ch = nch, !.infire = TRUE], arm)
 
+\* one more poll after the final result: its answer is unspecified, but it must not reach a child
+OnRepoll(m, e) == Arm([m EXCEPT !.phase = "inpoll", !.g = e.g, !.woken = FALSE, !.pc = <<>>], {"C03.repoll_after_final"})
+OnReret(m, e) == [m EXCEPT !.phase = "idle"]
+
 OnPwake(m, e) == [m EXCEPT !.woken = @ \/ (e.g = m.g)]
 
 OnFired(m, e) ==
@@ -209,14 +213,15 @@ FamProp(m) ==
 
 OnPanic(m, e) ==
   LET scripted == \E i \in DOMAIN m.pc : m.pc[i].r = "panic"
-      b == V(e.at = "wake", "C01", <<"waker invocation panicked">>)
+      b == IF e.at = "repoll" THEN {} ELSE
+           V(e.at = "wake", "C01", <<"waker invocation panicked">>)
            \cup V(e.at = "drop", "C02", <<"panic while dropping the combinator">>)
            \cup V(e.at \in {"insert", "remove", "reserve", "extend"}, GP(m), <<"group operation panicked", e.at>>)
            \cup V(e.at = "new", FamProp(m), <<"construction panicked">>)
            \* a panic out of poll that no scripted child caused
            \cup V(e.at = "poll" /\ ~scripted, FamProp(m), <<"combinator panicked in poll", m.fam, m.cont, m.n>>)
   IN AddBad([m EXCEPT !.infire = FALSE,
-                      !.phase = IF e.at = "poll" THEN "idle" ELSE @,
+                      !.phase = IF e.at \in {"poll", "repoll"} THEN "idle" ELSE @,
                       !.lastRet = IF e.at = "poll" THEN "final" ELSE @,
                       !.final = IF e.at = "poll" THEN TRUE ELSE @], b)
 
@@ -441,6 +446,13 @@ OnRet(m, e) ==
              \cup A(e.r = "ready" /\ ~e.ok, "ret.err")
              \cup A(e.r = "pending" /\ C01Owed(m) # {}, "C01.midpoll_wake_at_pending")
              \cup A(m.x >= 0 /\ e.r = "some", "C17.yield")
+             \cup {FamProp(m) \o ".ret." \o e.r \o (IF e.ok THEN "" ELSE ".err")}
+             \cup A(IsConcFam(m.fam) /\ e.r = "pending" /\ Cardinality(LiveKids(m)) >= 2, "C20.pending_multi")
+             \cup A(m.sub /\ e.r = "pending" /\ \E c \in Kids(m) : m.ch[c].live /\ m.ch[c].ans = "pending" /\ PcOf(m, c) = {} /\ m.pc # <<>>,
+                    "C16.selective")
+             \cup A(m.fam = "zip" /\ \E c \in Kids(m) : Len(m.ch[c].items) > m.nyield + (IF e.r = "some" THEN 1 ELSE 0), "C09.buffered")
+             \cup A(m.fam \in {"wait_until", "wait_until_stream"} /\ ~Done(m, 0), "C19.before_deadline")
+             \cup A(m.fam \in {"wait_until", "wait_until_stream"} /\ Done(m, 0), "C19.after_deadline")
   IN Arm(AddBad(m1, b \cup (IF e.r = "pending" THEN C01Check(m1, "end of poll") ELSE {})), arm)
 
 ---------------------------------------------------------------------------
@@ -602,6 +614,8 @@ MonStep(m, e) ==
     [] e.e = "remove"  -> OnRemove(m, e)
     [] e.e = "view"    -> OnView(m, e)
     [] e.e = "wnew"    -> OnWnew(m, e)
+    [] e.e = "repoll"  -> OnRepoll(m, e)
+    [] e.e = "reret"   -> OnReret(m, e)
     [] OTHER           -> m
 
 RECURSIVE MonSteps(_, _)
